@@ -43,10 +43,14 @@ Theorem mentions_only_entities : forall sch fuel (txs : list tx) R x,
 Proof. intros sch fuel txs R x Hwf. exact (final_absent sch Hwf fuel txs R x). Qed.
 Print Assumptions mentions_only_entities.
 
-(* Link collections are symmetric in every reachable state (so the cleanup of one side finds every holder). *)
+(* Link collections - declared on root stores or on child stores; the link sets live in the entity of the root store of the
+   declaring store - are symmetric in every reachable state (so the cleanup of one side finds every holder), and both ends
+   of a link live in the stores that declare the collection (so the delete of either end runs that cleanup). *)
 Theorem links_symmetric : forall sch fuel (txs : list tx) s lf os of_ x t,
   wf_notrace_b sch = true -> In (lf, os, of_) (links_of sch s) ->
-  (In t (eset (run_txs sch fuel st_empty txs) s x lf) <-> In x (eset (run_txs sch fuel st_empty txs) os t of_)).
+  (In t (eset (run_txs sch fuel st_empty txs) (root_of sch s) x lf) <-> In x (eset (run_txs sch fuel st_empty txs) (root_of sch os) t of_)) /\
+  (In t (eset (run_txs sch fuel st_empty txs) (root_of sch s) x lf) ->
+     present sch (run_txs sch fuel st_empty txs) s x = true /\ present sch (run_txs sch fuel st_empty txs) os t = true).
 Proof. intros sch fuel txs s lf os of_ x t Hwf. exact (final_links_symmetric sch Hwf fuel txs s lf os of_ x t). Qed.
 Print Assumptions links_symmetric.
 
